@@ -66,13 +66,17 @@ public:
                     const AggregationConfig *aggregation_config,
                     size_t attributes_limit = kAggregationCardinalityLimit)
       : instrument_descriptor_(instrument_descriptor),
+        attributes_limit_(attributes_limit),
         attributes_hashmap_(new AttributesHashMap(attributes_limit)),
         attributes_processor_(attributes_processor),
 #ifdef ENABLE_METRICS_EXEMPLAR_PREVIEW
         exemplar_filter_type_(exempler_filter_type),
         exemplar_reservoir_(exemplar_reservoir),
 #endif
-        temporal_metric_storage_(instrument_descriptor, aggregation_type, aggregation_config)
+        temporal_metric_storage_(instrument_descriptor,
+                                 aggregation_type,
+                                 aggregation_config,
+                                 attributes_limit)
   {
     create_default_aggregation_ = [&, aggregation_type,
                                    aggregation_config]() -> std::unique_ptr<Aggregation> {
@@ -172,6 +176,8 @@ public:
 
 private:
   InstrumentDescriptor instrument_descriptor_;
+  // cardinality limit of every per-interval hashmap
+  size_t attributes_limit_;
   // hashmap to maintain the metrics for delta collection (i.e, collection since last Collect call)
   std::unique_ptr<AttributesHashMap> attributes_hashmap_;
   std::function<std::unique_ptr<Aggregation>()> create_default_aggregation_;
